@@ -5,4 +5,9 @@ CONSTANTS
   PairTails = {"mpd", "vnum", "anum", "vtime", "subs_media", "bu_in"}
   PatchClasses = {"empty", "zero", "neg1", "one", "typical", "huge", "nonnum", "float", "inf", "wrongsep", "brokenlist"}
   LLTails = {"mpd", "init", "vnum", "anum", "vnum_lt", "num_huge", "vtime", "atime", "bu_in", "subs_media"}
+  EarlyClasses = {"empty", "zero", "neg1", "one", "typical", "huge", "nonnum", "float", "inf", "wrongsep", "brokenlist"}
+  EarlyPairClasses = {"zero", "one", "typical"}
+  EarlyTails = {"mpd", "vnum", "anum", "vtime", "subs_media"}
+  TripleClasses = {"empty", "zero", "neg1", "one", "typical", "huge", "nonnum", "float", "inf"}
+  TripleTails = {"mpd", "vnum", "anum", "num_huge"}
 INVARIANTS TypeOK Sane Emit
